@@ -4,8 +4,8 @@ from ..sim import Monitor
 from pyhms.core.problem import EvalCutoffProblem
 
 PROP = "C03"
-N_QUICK = 3000
-N_THOROUGH = 60000
+N_QUICK = 7000
+N_THOROUGH = 150000
 RULE = ("Plans: all engine mixes, 1-3 levels, shared and per-level wrapper stacks, budgets N log-uniform from 1 to "
         "beyond the natural end, all GSCs, entry points tree/hms/minimize; faults: budget exhaustion, external stop "
         "signal, injected LSC verdicts.")
